@@ -1,0 +1,61 @@
+//! Verification hooks for the external runtime-monitoring harness.
+//!
+//! Compiled only with `--features verif`. Nothing in here is used by production code paths:
+//! the module re-exports items that are `pub` inside private modules, offers thin facades over
+//! `pub(crate)` items and keeps a table of branch probes (relaxed atomic counters) which the
+//! harness reads as evidence of what a workload actually reached.
+
+use std::sync::atomic::{AtomicU64, Ordering};
+
+/// Re-exports of the Noise implementation (`crypto::noise` is `pub(crate)`).
+pub mod noise {
+    pub use crate::crypto::noise::{
+        handshake, HandshakeTransport, NoiseContext, NoiseSocket, MAX_FRAME_LEN,
+    };
+}
+
+/// Re-exports of the multistream-select implementation (private module).
+pub mod multistream {
+    pub use crate::multistream_select::{
+        dialer_select_proto, listener_select_proto, webrtc_listener_negotiate, DialerSelectFuture,
+        HandshakeResult, HeaderLine, ListenerSelectFuture, ListenerSelectResult, Message,
+        Negotiated, NegotiatedComplete, NegotiationError, Protocol, ProtocolError, Version,
+        WebRtcDialerState, PROTO_MULTISTREAM_1_0,
+    };
+}
+
+/// Number of probe slots.
+const PROBE_SLOTS: usize = 128;
+
+#[allow(clippy::declare_interior_mutable_const)]
+const ZERO: AtomicU64 = AtomicU64::new(0);
+static PROBE_COUNTS: [AtomicU64; PROBE_SLOTS] = [ZERO; PROBE_SLOTS];
+static PROBE_NAMES: parking_lot::Mutex<Vec<&'static str>> = parking_lot::Mutex::new(Vec::new());
+
+/// Record that the branch called `name` was reached.
+pub fn hit(name: &'static str) {
+    let index = {
+        let mut names = PROBE_NAMES.lock();
+        match names.iter().position(|n| *n == name) {
+            Some(index) => index,
+            None => {
+                if names.len() == PROBE_SLOTS {
+                    return;
+                }
+                names.push(name);
+                names.len() - 1
+            }
+        }
+    };
+    PROBE_COUNTS[index].fetch_add(1, Ordering::Relaxed);
+}
+
+/// Snapshot of all probes hit so far.
+pub fn probes() -> Vec<(&'static str, u64)> {
+    let names = PROBE_NAMES.lock();
+    names
+        .iter()
+        .enumerate()
+        .map(|(i, n)| (*n, PROBE_COUNTS[i].load(Ordering::Relaxed)))
+        .collect()
+}
